@@ -25,6 +25,12 @@
     missing: [trav].  A root outside the catalogue stands for an address whose
     chunk is never stored.  Theorems quantify over every catalogue.
 
+    REPAIRED CODE.  The model is of the code with proposed/C16/fix-delfile-unregistered-root.patch
+    ([DelFile] registers a root the pyramid table does not know before the callback runs:
+    [register_ci] inside [gc_evict_ci] and [api_delete]) and
+    proposed/C16/fix-delete-shared-root.patch (the delete closure removes the root chunk only
+    when getUnRepeatChunk listed it).
+
     Not modelled: the discover / neighbour / source tables and their state-store
     records (C17), the find queues ([IsDiscover]/[DelDiscover] answer false /
     do nothing without a pending discovery), the HTTP layer around the closure. *)
@@ -92,21 +98,25 @@ Section Sys.
     | Some sh => if data_has s root && forallb (data_has s) (f_edges sh) then Some sh else None
     end.
 
-  (** [getChunkSize] / [initChunkPyramid] -> [updateChunkPyramid]: nothing when the
-      root is in hashData or the pyramid cannot be read locally *)
+  (** [updateChunkPyramid] guarded by the hashData test of [initChunkPyramid] / [getChunkSize],
+      for a root whose pyramid [sh] has been read *)
+  Definition register_ci (c : cistate) (root : addr) (sh : shape) : cistate :=
+    if registered c root then c
+    else
+      let m1 := fold_left put_chunk (dedup (f_leaves sh)) (ci_chunk c) in
+      let m2 := fold_left put_chunk (hashes sh) m1 in
+      {| ci_hash := ainsert cmp_bytes root
+                      (N.of_nat (length (hashes sh)), N.of_nat (length (dedup (f_leaves sh))))
+                      (ci_hash c);
+         ci_chunk := m2 |}.
+
+  (** [getChunkSize] / [initChunkPyramid]: nothing when the root is in hashData or the
+      pyramid cannot be read locally *)
   Definition register (s : sys) (root : addr) : sys :=
-    if registered (ci s) root then s
-    else match trav (ls s) root with
-         | None => s
-         | Some sh =>
-             let m1 := fold_left put_chunk (dedup (f_leaves sh)) (ci_chunk (ci s)) in
-             let m2 := fold_left put_chunk (hashes sh) m1 in
-             {| ls := ls s;
-                ci := {| ci_hash := ainsert cmp_bytes root
-                                      (N.of_nat (length (hashes sh)), N.of_nat (length (dedup (f_leaves sh))))
-                                      (ci_hash (ci s));
-                         ci_chunk := m2 |} |}
-         end.
+    match trav (ls s) root with
+    | None => s
+    | Some sh => {| ls := ls s; ci := register_ci (ci s) root sh |}
+    end.
 
   (** [getUnRepeatChunk]: the chunks of the file whose reference count is <= 1,
       data chunks with their multiplicity, the other edge chunks with 1.
@@ -123,7 +133,9 @@ Section Sys.
 
   (** *** pkg/localstore/gc.go with chunkinfo behind db.discover *)
 
-  (** the loop over the candidates: [DelFile(addr, callback)].  Traversal and
+  (** the loop over the candidates: [DelFile(addr, callback)].  DelFile reads the pyramid,
+      registers the root if the table does not know it (repaired code), then runs the
+      callback, which gives up on a dirty root (the registration stays).  Traversal and
       the callback read the COMMITTED store: deletions sit in the batch, the
       pin decrements are direct writes.  C11's [gc_chunks] is the loop over the
       pyramid inside the callback. *)
@@ -136,10 +148,11 @@ Section Sys.
         match trav s a with
         | None => gc_evict_ci s c b n rest recycled                       (* getPyramid: storage.ErrNotFound *)
         | Some sh =>
-            if mem_addr a (s_dirty s) then gc_evict_ci s c b n rest recycled   (* dirtyGarbageNoHandle *)
+            let c0 := register_ci c a sh in
+            if mem_addr a (s_dirty s) then gc_evict_ci s c0 b n rest recycled   (* dirtyGarbageNoHandle *)
             else
-              let '(s', b', m) := gc_chunks s b 0 (unrepeat c sh) in
-              gc_evict_ci s' (del_root_cid c a sh) b' (wadd n m) rest (recycled ++ [(k, g)])
+              let '(s', b', m) := gc_chunks s b 0 (unrepeat c0 sh) in
+              gc_evict_ci s' (del_root_cid c0 a sh) b' (wadd n m) rest (recycled ++ [(k, g)])
         end
     end.
 
@@ -216,24 +229,28 @@ Section Sys.
     && nodupb order
     && forallb (fun a => mem_addr a want) order.
 
-  (** [DelFile(hash, del)] with the closure of the handler *)
+  (** [DelFile(hash, del)] with the closure of the handler (repaired: the root is registered
+      first; the root chunk is removed only when the pyramid listed it) *)
   Definition api_delete (root : addr) (order : list addr) (x : sys) : sys * gobs :=
     match trav (ls x) root with
     | None => (x, GDel false)                       (* getPyramid fails: 500, nothing done *)
     | Some sh =>
-        let l := unrepeat (ci x) sh in
+        let c0 := register_ci (ci x) root sh in
+        let l := unrepeat c0 sh in
         if negb (order_ok root order l) then (x, GBad)
         else match reorder order l with
              | None => (x, GBad)
              | Some l' =>
                  match remove_all root l' (ls x) with
-                 | (s1, Some _) => ({| ls := s1; ci := ci x |}, GDel false)
+                 | (s1, Some _) => ({| ls := s1; ci := c0 |}, GDel false)
                  | (s1, None) =>
-                     match set capacity 0 SRemove (Some root) [root] s1 with
-                     | (s2, RSet None _) | (s2, RSet (Some ENotFound) _) =>
-                         ({| ls := s2; ci := del_root_cid (ci x) root sh |}, GDel true)
-                     | (s2, _) => ({| ls := s2; ci := ci x |}, GDel false)
-                     end
+                     if mem_addr root (map fst l) then
+                       match set capacity 0 SRemove (Some root) [root] s1 with
+                       | (s2, RSet None _) | (s2, RSet (Some ENotFound) _) =>
+                           ({| ls := s2; ci := del_root_cid c0 root sh |}, GDel true)
+                       | (s2, _) => ({| ls := s2; ci := c0 |}, GDel false)
+                       end
+                     else ({| ls := s1; ci := del_root_cid c0 root sh |}, GDel true)
                  end
              end
     end.
